@@ -53,6 +53,11 @@ type Layout struct {
 	// FixedLast appends an unknown fixed64/fixed32 field at the END of every message (block, group,
 	// dense, dense info, way, relation, info): the shape protoscan's Message.Skip mis-reports.
 	FixedLast bool `json:"fixed_last,omitempty"`
+	// SplitPacked writes every packed column that has at least two entries as TWO chunks (the same
+	// field number twice, first half then second half).  Legal protobuf ("a packed repeated field
+	// may occur more than once, parsers concatenate"); no known OSM writer does it.  The decoder
+	// under test keeps only the last chunk: known finding "packed-column-split" of C01.
+	SplitPacked bool `json:"split_packed,omitempty"`
 	// Seed drives both; the output is a function of the description only.
 	Seed int64 `json:"seed,omitempty"`
 }
